@@ -558,6 +558,26 @@ CHECKS = {
                 "sources x termination patterns x every dispose time) whose disagreement with a passing analysis is a checker crash.",
         "technique": "K5 ownership contracts by least-fixpoint analysis on the real AST + K2 class refinement (AutoDetachObserver) + contract of Observable.subscribe; native TestScheduler replay",
     },
+    "C36": {
+        "text": "Function contracts on the real Scheduler.to_seconds / to_datetime / to_timedelta and Scheduler.now, executed "
+                "symbolically for every kind of argument (float seconds, timedelta, timezone-aware datetime with an arbitrary utc "
+                "offset) against a contract of the datetime module: a timedelta is an integer number of microseconds, an aware "
+                "datetime an instant (integer microseconds since the epoch) plus an offset, arithmetic between aware datetimes goes by "
+                "the instant, replace(tzinfo=..) keeps the wall-clock fields (moves the instant), mixing naive and aware raises. "
+                "Postconditions from the property: a value that already has the target representation is returned unchanged (the very "
+                "object); otherwise the result is the one value of the target representation that denotes the same instant / span, "
+                "to_datetime yields aware UTC, now is aware UTC. The round-trip and order statements of the property are lemmas over "
+                "these postconditions and A-float.",
+        "note": "A-float (assumed contract of CPython's float <-> microsecond conversions, NOT proved: floating point is outside the "
+                "reach of this family here): total_seconds() and timedelta(seconds=..) / fromtimestamp(.., tz) are monotone and inverse "
+                "on every microsecond-aligned value with |us| < 2**52 (about 142 years around the epoch; measured: beyond that double "
+                "seconds no longer resolve single microseconds and the round trip fails for 4% of the values of the next binade, so "
+                "'round-trips exactly' cannot hold there for any implementation on float seconds). The datetime-module contract and "
+                "A-float are cross-checked natively in the thorough tier (timerun.py: 6800 cases - grid of floats, timedeltas, aware "
+                "datetimes in six zones, all pairs for order, all round trips, `now` of every scheduler class); a disagreement with a "
+                "passing proof is a checker crash. Naive datetimes are outside the property ('timezone-aware datetimes').",
+        "technique": "function contracts by symbolic execution of the real conversions against a contract of the datetime module, SMT; float conversions assumed (A-float) and cross-checked natively",
+    },
     "C14": {
         "text": "A chain of per-function contracts, each proved in its own unit of this check. (a) Producers (closure contracts, "
                 "C37): from_iterable's loop runs only while its stop flag is clear and the disposable it returns sets that flag; "
